@@ -34,7 +34,7 @@ theorem storeInt_hints_irrelevant (t : IntTy) (range : List (Int × Int)) (h1 h2
 
 theorem storeDec64_hints_irrelevant (fd : Nat) (range : List (Int × Int)) (h1 h2 : Nat) (s : Bytes)
     (h : (checkHints h1 "dec64").isSome = (checkHints h2 "dec64").isSome) : storeDec64 fd range h1 s = storeDec64 fd range h2 s := by
-  unfold storeDec64
+  unfold storeDec64 storeDec64With
   cases a : checkHints h1 "dec64" <;> cases b : checkHints h2 "dec64" <;> simp [a, b] at h ⊢
 
 /-- well-formed enumeration: names and values are pairwise distinct and the values are int32 -/
